@@ -177,25 +177,35 @@ def coqc_text(name, text, timeout=900):
 
 
 def check_obligations(prop):
-    """Returns dict: theorems, discharged, assumptions {thm: text}, ok, broken (description)."""
-    rel = "Properties/%s.v" % prop
-    res = {"file": rel, "theorems": [], "discharged": 0, "assumptions": {}, "ok": False, "broken": None}
-    if not os.path.exists(os.path.join(COQ, rel)):
-        res["broken"] = "missing " + rel
+    """Returns dict: theorems, discharged, assumptions {thm: text}, ok, broken (description).
+    Obligations of a property: every Theorem/Lemma/Example of Properties/<prop>.v and of Properties/<prop>_*.v."""
+    import glob as _glob
+    rels = ["Properties/%s.v" % prop] + sorted("Properties/" + os.path.basename(f)
+                                               for f in _glob.glob(os.path.join(COQ, "Properties", "%s_*.v" % prop)))
+    res = {"file": ", ".join(rels), "theorems": [], "discharged": 0, "assumptions": {}, "ok": False, "broken": None}
+    if not os.path.exists(os.path.join(COQ, rels[0])):
+        res["broken"] = "missing " + rels[0]
         return res
-    thms = theorems_of(rel)
+    thms, per_file = [], []
+    for rel in rels:
+        t = theorems_of(rel)
+        per_file.append((rel, t))
+        thms += t
     res["theorems"] = thms
-    if not vo_ok(rel):
-        res["broken"] = "%s does not compile (see make log)" % rel
-        return res
-    text = "From Verif Require Import Properties.%s.\n" % prop
-    for t in thms:
-        text += 'Print Assumptions %s.\n' % t
+    for rel, _ in per_file:
+        if not vo_ok(rel):
+            res["broken"] = "%s does not compile (see make log)" % rel
+            return res
+    text = ""
+    for rel, t in per_file:
+        mod = rel[:-2].replace("/", ".")
+        text += "From Verif Require %s.\n" % mod
+        for name in t:
+            text += "Print Assumptions %s.%s.\n" % (mod.split(".", 1)[1] if False else "Verif." + mod, name)
     rc, out = coqc_text("assum_%s" % prop, text)
     if rc != 0:
         res["broken"] = "Print Assumptions failed: " + out[-2000:]
         return res
-    # split output per theorem: coq prints either "Closed under the global context" or "Axioms:\n..."
     chunks = re.split(r"(?=Closed under the global context|Axioms:)", out)
     chunks = [c.strip() for c in chunks if c.strip()]
     bad = []
